@@ -228,6 +228,33 @@ bool SessionManager::haveSession(CK_SLOT_ID slotID)
 	return false;
 }
 
+// Log the SO in unless a R/O session exists on the token. The check and the login are
+// done while the session vector is locked, like the check for the SO in openSession(),
+// so that a R/O session cannot be opened in between.
+CK_RV SessionManager::loginSO(Slot* slot, ByteString& pin)
+{
+	if (slot == NULL) return CKR_GENERAL_ERROR;
+
+	Token* token = slot->getToken();
+	if (token == NULL) return CKR_GENERAL_ERROR;
+
+	// Lock access to the vector
+	MutexLocker lock(sessionsMutex);
+
+	// There cannot exist a R/O session on this slot
+	const CK_SLOT_ID slotID = slot->getSlotID();
+	for (std::vector<Session*>::iterator i = sessions.begin(); i != sessions.end(); i++)
+	{
+		if (*i == NULL) continue;
+
+		if ((*i)->getSlot()->getSlotID() != slotID) continue;
+
+		if ((*i)->isRW() == false) return CKR_SESSION_READ_ONLY_EXISTS;
+	}
+
+	return token->loginSO(pin);
+}
+
 bool SessionManager::haveROSession(CK_SLOT_ID slotID)
 {
 	// Lock access to the vector
